@@ -409,7 +409,7 @@ def wicks(expr, rules: Rules = None, simplify_kronecker_deltas: bool = False):
                 target = Expr(expr).terms[0].target
                 result = evaluate_deltas(result, target_idx=target)
     else:  # neither add, Mul, NO or Operator -> maybe a number or a tensor
-        return expr
+        result = expr
 
     # apply rules to the result
     if rules is None:
